@@ -2,6 +2,7 @@ SPECIFICATION Spec
 CONSTANT MaxLen = 3
 CONSTANT MaxAvail = 4
 CONSTANT Mode = "chars"
+CONSTANT MaxMsgs = 2
 CONSTANT Kinds = {"msg"}
 CONSTRAINT Report
 CHECK_DEADLOCK FALSE
